@@ -3,7 +3,7 @@ import ast
 import os
 import re
 
-from sa.model import AnalysisError, ClassInfo, External, Unfoldable, norm
+from sa.model import AnalysisError, ClassInfo, External, FunctionInfo, Unfoldable, norm
 from sa.roles import SPEC_IDS
 from sa import rx as RX
 from sa.rx import _opname
@@ -15,6 +15,8 @@ def describe_action(P, module, cls, node):
     """('token', dotted) | ('bygroups', [actions]) | ('using', target, state) | ('none',)"""
     if isinstance(node, ast.Constant) and node.value is None:
         return ('none',)
+    if isinstance(node, ast.Name) and isinstance(P.resolve_name(module, node.id), FunctionInfo):
+        return ('callback', node.id, P.resolve_name(module, node.id))
     if isinstance(node, (ast.Name, ast.Attribute)):
         parts = []
         x = node
@@ -220,6 +222,20 @@ def run(P, rep, tier):
                 else:
                     bad = False
                     for gi, a in enumerate(act[1], 1):
+                        if a[0] == 'callback':
+                            fi = a[2]
+                            partial = [norm(n)[:60] for n in ast.walk(fi.node) if isinstance(n, ast.Call) and isinstance(n.func, ast.Attribute)
+                                       and n.func.attr in ('finditer', 'findall', 'search', 'split')]
+                            whole = any(isinstance(n, (ast.Yield,)) and n.value is not None and 'match.group(' in norm(n.value)
+                                        and 'm.group' not in norm(n.value) for n in ast.walk(fi.node))
+                            if partial and not whole:
+                                bad = True
+                                rep.violation(r1, 'callback-partial:%s:%s' % (_rule_name(rule), a[1]), loc(rule),
+                                              'group %d of rule %r is handed to the callback %s(), which emits only the pieces matched by %s: '
+                                              'text of the group that its inner pattern does not match (e.g. the "/" of mimetype=text/plain) '
+                                              'disappears from the token stream' % (gi, rule['pattern'][:40], a[1], partial[0]))
+                            elif not whole:
+                                raise AnalysisError('callback action %s not understood' % a[1])
                         if a[0] == 'none':
                             glo, ghi = _group_width(tree, gi)
                             if ghi > 0:
@@ -288,9 +304,24 @@ def run(P, rep, tier):
                 looks.append((rule, av[1]))
     for rule, body in looks:
         try:
-            d = RX.concat(RX.sub_dfa(body, False, flags, N, tail=True), RX.sigma_star(N))
+            items_ = list(body)
+            alts = [list(a) for a in items_[0][1][1]] if len(items_) == 1 and _opname(items_[0][0]) == 'BRANCH' else [items_]
+            d = RX.empty_lang(N)
+            for alt in alts:
+                if all(is_zero_width(o, a) for o, a in alt):
+                    continue        # \Z / $: fires only at the end of the text
+                d = RX.union(d, RX.concat(RX.sub_dfa(alt, False, flags, N), RX.sigma_star(N)))
         except AnalysisError as e:
             raise AnalysisError('end-of-section lookahead not understood: %s' % e)
+        hashdot = RX.concat(RX.literal('#.', N), RX.sigma_star(N))
+        w_ = RX.included(RX.intersect(d, RX.complement(RX.empty_string(N))), hashdot)
+        if w_ is not None:
+            rep.violation(r5, 'lookahead-fires-in-content:%s' % _rule_name(rule), loc(rule),
+                          'the end-of-section lookahead of %r also fires at %s, which is not the start of a nested section header '
+                          '("#." ...): content containing that text (and no "#.") is cut there and a spurious header token appears'
+                          % (rule['pattern'][:30], RX.show(w_, N)), witness=RX.show(w_, N))
+        else:
+            rep.ok(r5, 'lookahead of %r fires only at "#."' % _rule_name(rule))
         for sid in SPEC_IDS:
             if sid == 'diffx':
                 continue
